@@ -14,7 +14,11 @@ class VectorialAsofDateParameterNodeAtInstant(VectorialParameterNodeAtInstant):
     @staticmethod
     def build_from_node(node):
         VectorialParameterNodeAtInstant.check_node_vectorisable(node)
-        subnodes_name = node._children.keys()
+        # Chronological order, whatever the declaration order: "before" first.
+        subnodes_name = sorted(
+            node._children.keys(),
+            key=lambda name: (not name.startswith("before"), name),
+        )
         # Recursively vectorize the children of the node
         vectorial_subnodes = tuple(
             [
